@@ -1,5 +1,6 @@
 import O4.Lemmas.Obfs4Ref
 import O4.Generated.Facts.Ntor
+import O4.Generated.Facts.Obfs4
 /-!
 # C06 — the obfs4 wire format (handshake lengths, key schedule split, frame / nonce / packet
 layout, the unpadded seed frame), over the constants regenerated from the Go tree
@@ -199,6 +200,20 @@ theorem key_schedule_structure :
     "curve25519.ScalarMult" ∈ O4.Facts.Ntor.func_ClientHandshake_calls ∧
     "curve25519.ScalarMult" ∈ O4.Facts.Ntor.func_ServerHandshake_calls ∧
     "hkdf.New" ∈ O4.Facts.Ntor.func_Kdf_calls := by
+  decide
+
+/-- **the packet layer of the two directions shares no connection state** (go/ast field sets of
+    `transports/obfs4`, regenerated on every run): `makePacket` / `padBurst` (the `Write` path) touch
+    only the encoder, and nothing they touch is touched by `processReceiveBuffer` / `readPackets`
+    (the `Read` path) — in particular no scratch buffer for packet plaintexts is shared, so a
+    `Write` and a `Read` in progress at the same time on one connection cannot mix the packet being
+    assembled with the one being taken apart (the model's `makePacket` and `parsePacket` are pure
+    functions of their arguments). -/
+theorem packet_scratch_private :
+    (∀ f, f ∈ O4.Facts.Obfs4.obfs4Conn_makePacket_fields → f ∉ O4.Facts.Obfs4.obfs4Conn_processReceiveBuffer_fields) ∧
+    (∀ f, f ∈ O4.Facts.Obfs4.obfs4Conn_makePacket_fields → f ∉ O4.Facts.Obfs4.obfs4Conn_readPackets_fields) ∧
+    (∀ f, f ∈ O4.Facts.Obfs4.obfs4Conn_padBurst_fields → f ∉ O4.Facts.Obfs4.obfs4Conn_readPackets_fields) ∧
+    O4.Facts.Obfs4.obfs4Conn_makePacket_fields = ["encoder"] := by
   decide
 
 /-! ## the epoch hour -/
